@@ -36,6 +36,7 @@ type KnownFinding struct {
 	WhatFails  string `json:"what_fails"`
 	Witness    string `json:"witness,omitempty"`
 	Commit     string `json:"commit,omitempty"`
+	FamilyClass string `json:"family_class,omitempty"` // members of a replay family covered by this finding
 }
 
 func loadInventory() (map[string]*PropertySpec, error) {
